@@ -78,6 +78,24 @@ Definition go_set_g {A : Type} (l : list A) (i : Z) (v : A) : gres (list A) :=
   if (0 <=? i) && (i <? Z.of_nat (length l))
   then GOk (firstn (Z.to_nat i) l ++ v :: skipn (S (Z.to_nat i)) l) else GPanic.
 
+(** A buffered channel used as a bounded FIFO by ONE sender or ONE receiver at a time: the buffered
+    elements (oldest first) and the capacity. [ch_send] is the blocking send [ch <- v]: it proceeds
+    when there is room and is [GPanic] otherwise ("would block": the lemmas about translated code
+    carry the hypothesis that there is room). [ch_room] / [ch_push] are the two halves of the
+    non-blocking send [select { case ch <- v: ... default: ... }], [ch_nonempty] / [ch_pop] those
+    of the non-blocking receive. A nil channel is [mk_gchan [] 0]. *)
+Record gchan (A : Type) := mk_gchan { ch_buf : list A; ch_cap : Z }.
+Arguments mk_gchan {A} _ _.
+Arguments ch_buf {A} _.
+Arguments ch_cap {A} _.
+Definition ch_len {A : Type} (c : gchan A) : Z := Z.of_nat (length (ch_buf c)).
+Definition ch_room {A : Type} (c : gchan A) : bool := ch_len c <? ch_cap c.
+Definition ch_push {A : Type} (c : gchan A) (v : A) : gchan A := mk_gchan (ch_buf c ++ [v]) (ch_cap c).
+Definition ch_send {A : Type} (c : gchan A) (v : A) : gres (gchan A) :=
+  if ch_room c then GOk (ch_push c v) else GPanic.
+Definition ch_nonempty {A : Type} (c : gchan A) : bool := match ch_buf c with [] => false | _ => true end.
+Definition ch_pop {A : Type} (c : gchan A) : gchan A := mk_gchan (tl (ch_buf c)) (ch_cap c).
+
 (** [float64(x)] for a [float32] [x], on IEEE-754 bit patterns (32-bit pattern in, 64-bit pattern out):
     exact widening - sign, exponent re-biased, fraction shifted; subnormals normalised; infinities
     kept; a NaN keeps its payload (shifted) with the quiet bit set, as the hardware conversion does. *)
